@@ -427,6 +427,10 @@ pub fn sweep_point(vm: &mut VM, f: &L0Fn, p: &Point, openq: &Quirks, out: &mut S
                 out.known += 1;
                 return;
             }
+            // coarse bucket: all flag combinations together
+            let coarse = if mm.aspect.chars().next().map(|c| c.is_ascii_uppercase()).unwrap_or(false) || mm.aspect == "nonstatus" { "flags".to_string() } else { mm.aspect.clone() };
+            let detail = format!("[{}] {}", mm.aspect, mm.detail);
+            let mm = Mismatch { aspect: coarse, detail };
             let b = out.buckets.entry(mm.aspect.clone()).or_default();
             b.n += 1;
             b.digest ^= splitmix(((p.a as u64) << 32) ^ ((p.b as u64) << 8) ^ ((p.flags as u64) << 48) ^ p.dx as u64);
